@@ -284,6 +284,7 @@ Proof.
   destruct post as [post|].
   - destruct (unwind_normal pre 0 (forallb_quiet v pre Hpre)) as [N1 N2].
     destruct (unwind 0 pre SNormal) as [s1 ev1]; simpl in *; subst s1.
+    simpl sync_ok. rewrite andb_true_r.
     destruct (runs_jobs entry).
     + pose proof (thrower_carries th (length pre + length post) v Hth) as Hc.
       destruct (identity_core post (length pre) _ v Hc Hpost) as [I1 I2].
@@ -609,7 +610,7 @@ Proof.
   intros [entry pre post th] e Hs He. simpl in *. unfold propagate; simpl.
   destruct post as [post|].
   - destruct (unwind 0 pre SNormal) as [s1 ev1]; simpl in *.
-    destruct (runs_jobs entry); simpl; auto.
+    destruct (runs_jobs entry && sync_ok s1); simpl; auto.
     rewrite Hs. destruct (unc_core post (length pre) e He) as [[e' [E1 [E2 E3]]] U2].
     destruct (unwind (length pre) post (SPanic (PVErr e))) as [s2 ev2]; simpl in *. subst s2. simpl.
     destruct (nonjs_js_events _ U2) as [J1 J2].
@@ -633,7 +634,7 @@ Lemma job_exception_contained : forall c post,
 Proof.
   intros [entry pre post0 th] post H. simpl in H. subst post0. unfold propagate; simpl.
   destruct (unwind 0 pre SNormal) as [s1 ev1]; simpl.
-  destruct (runs_jobs entry); auto.
+  destruct (runs_jobs entry && sync_ok s1); auto.
   destruct (unwind (length pre) post (init_signal (length pre + length post) th)) as [s2 ev2].
   destruct s2 as [|p]; auto.
   destruct (exc_of (length pre) p) as [[v st]|] eqn:E; auto.
@@ -690,3 +691,19 @@ Example finally_override_nonvacuous :
          (init_signal 3 (TJsThrow (VObj 1 0))) =
   (SNormal, [EvFinally 2; EvFinally 1; EvCatch 0 (VObj 0 6)]).
 Proof. vm_compute. reflexivity. Qed.
+
+(* a generator / async function body whose try statements have all been left when it makes the call (however many
+   times it was suspended and resumed before) is a JS frame with no active try: it logs nothing, passes on a JS
+   exception with the same value and the same stack, and passes on anything else untouched *)
+Lemma suspended_body_transparent : forall d s,
+  snd (step_js d (mkJS None false FinQuiet) s) = [] /\
+  sig_value (fst (step_js d (mkJS None false FinQuiet) s)) = sig_value s /\
+  (forall v st, s = SPanic (PVExc v st) -> fst (step_js d (mkJS None false FinQuiet) s) = s) /\
+  (forall p, s = SPanic p -> exc_of d p = None -> fst (step_js d (mkJS None false FinQuiet) s) = s) /\
+  (s = SNormal -> fst (step_js d (mkJS None false FinQuiet) s) = SNormal).
+Proof.
+  intros d s. destruct s as [|[v|v st|e|x]]; simpl; repeat split; auto; intros; try discriminate;
+    try congruence;
+    repeat match goal with H : SPanic _ = SPanic _ |- _ => inversion H; subst; clear H end;
+    simpl in *; try discriminate; auto.
+Qed.
